@@ -190,6 +190,11 @@ func (l *Lexer) Next(p []byte) (TokenType, []byte, error) {
 				continue
 			}
 		case OpAttachment:
+			if recordLen > math.MaxInt64 {
+				// as an int64 limit this would be negative: the unread remainder "skipped" below
+				// would move a seekable source backwards, onto the same record header again.
+				return TokenError, nil, fmt.Errorf("attachment record length %d out of range", recordLen)
+			}
 			limitReader := &io.LimitedReader{
 				R: l.reader,
 				N: int64(recordLen),
